@@ -181,6 +181,10 @@ def wf_any(a, top=True) -> bool:
                 if y is not None and e.month is not None and e.day is not None and e.day > mdays(y, e.month):
                     return False
         f, t = a.t_from, a.t_to
+        if f is not None and t is not None and f.isTOD and t.isTOD:
+            # what ruleTODTOD establishes ("9-5" is read as 9-17) and rulePODInterval preserves
+            if f.hour > t.hour and f.hour <= 12 and t.hour <= 12:
+                return False
         if f is not None and t is not None and f.hasDate and t.hasDate:
             # fully dated start is not after the end (by the start accessor's instants)
             return _start_key(f) <= _end_key(t)
